@@ -203,9 +203,9 @@ pub fn expect(case: &Case) -> Expect {
                         if case.faulted.as_deref() == Some(first.as_str()) {
                             // an unreadable better-ranked candidate: report (3) or go on
                             a.push(None);
-                            match m.get(1) {
-                                Some(second) => a.push(Some((d.kind.clone(), d.tags[*second].clone()))),
-                                None => {}
+                            // the next candidate that is another file (a directory may be listed twice)
+                            if let Some(second) = m.iter().find(|c| **c != *first) {
+                                a.push(Some((d.kind.clone(), d.tags[*second].clone())));
                             }
                             // the faulted one itself is no longer acceptable
                             a.remove(0);
@@ -874,7 +874,7 @@ fn minimise(case: &Case, class: &str, wk: &mut Worker) -> (Case, u32) {
 
 pub fn check(cfg: &Cfg) -> Result<i32, Harness> {
     let started = std::time::Instant::now();
-    let n = cfg.n(600, 40_000);
+    let n = cfg.n(600, 15_000);
     let idx: Vec<u64> = (0..n as u64).collect();
     struct Out {
         viol: Option<Violation>,
